@@ -24,6 +24,13 @@ def DOp.isBase : DOp → Bool
   | .base _ => true
   | _ => false
 
+/-- the base operation an operation amounts to AS FAR AS THE SOFTWARE LIST IS CONCERNED: a timestep with the database restore
+in it (`tickDb`) ticks the software exactly like `tick` (the restore touches the file system only) -/
+def DOp.swBase : DOp → Option Op
+  | .base b => some b
+  | .tickDb _ _ => some .tick
+  | _ => none
+
 /-- the software item a structural operation may add -/
 def DNode.freshSw (d : DNode) : DOp → Option Sw
   | .appInstallReq s _ => some ({ s with isApp := true }.freshReq)
@@ -60,11 +67,53 @@ theorem SwSpec.construct_fixOk (s : SwSpec) : s.construct.FixOk := by
 
 /-- file-system operations do not touch the software list -/
 def DOp.isFs : DOp → Bool
-  | .fsCreateFolder _ | .fsCreateFile _ _ _ | .fsCopyFile _ _ _ | .dbReplace _ _ _ => true
+  | .fsCreateFolder _ | .fsCreateFile _ _ _ | .fsCopyFile _ _ _ | .dbReplace _ _ _ | .folderSet _ _ | .dbRestore _ _ => true
   | _ => false
 
 theorem createFolder_sws (e : DNode) (G : String) : (e.createFolder G).n.sws = e.n.sws := by
   unfold DNode.createFolder; split <;> rfl
+
+theorem addNewFile_sws (e : DNode) (F f : String) : (e.addNewFile F f).n.sws = e.n.sws := by
+  unfold DNode.addNewFile; split
+  · split <;> rfl
+  · rfl
+
+theorem createFile_sws (e : DNode) (F f : String) : (e.createFile F f).n.sws = e.n.sws := by
+  unfold DNode.createFile
+  rw [addNewFile_sws]
+  split
+  · rfl
+  · exact createFolder_sws _ _
+
+theorem dbReplace_sws (d : DNode) (F f sF : String) : (d.dbReplace F f sF).n.sws = d.n.sws := by
+  unfold DNode.dbReplace
+  split
+  · rfl
+  · split
+    · split <;> rfl
+    · split
+      · rfl
+      · split
+        · rfl
+        · exact createFolder_sws _ _
+
+theorem dlClear_sws (d : DNode) (pre : Bool) : (d.dlClear pre).n.sws = d.n.sws := by
+  unfold DNode.dlClear; split <;> rfl
+
+theorem dlArrive_sws (d : DNode) (h : FsH) : (d.dlArrive h).n.sws = d.n.sws := by
+  unfold DNode.dlArrive
+  split
+  · rfl
+  · simp only []
+    split
+    · rfl
+    · exact createFolder_sws _ _
+
+theorem dbRestore_sws (d : DNode) (pre : Bool) (dl : Option FsH) : (d.dbRestore pre dl).n.sws = d.n.sws := by
+  unfold DNode.dbRestore
+  cases dl with
+  | none => exact dlClear_sws d pre
+  | some h => simp only []; rw [dbReplace_sws, dlArrive_sws, dlClear_sws]
 
 theorem dapply_fs_sws (d : DNode) (op : DOp) (h : op.isFs = true) : (d.apply op).n.sws = d.n.sws := by
   cases op <;> simp only [DOp.isFs, reduceCtorEq] at h <;> simp only [DNode.apply]
@@ -94,19 +143,17 @@ theorem dapply_fs_sws (d : DNode) (op : DOp) (h : op.isFs = true) : (d.apply op)
       split
       · rfl
       · exact createFolder_sws _ _
-  case dbReplace F f sF =>
-    unfold DNode.dbReplace
-    split
-    · split <;> rfl
-    · rfl
+  case dbReplace F f sF => exact dbReplace_sws d F f sF
+  case folderSet F h => rfl
+  case dbRestore pre dl => exact dbRestore_sws d pre dl
 
 /-- **C14 dyn (software, structural step).** A structural operation leaves the software list alone, appends one fresh
 (never scanned) item, or removes one item; every other item is the identical record. -/
-theorem C14_dyn_struct_sw (d : DNode) (op : DOp) (hs : op.isBase = false) :
+theorem C14_dyn_struct_sw (d : DNode) (op : DOp) (hs : op.swBase = none) :
     (d.apply op).n.sws = d.n.sws ∨
     (∃ x, d.freshSw op = some x ∧ (d.apply op).n.sws = d.n.sws ++ [x]) ∨
     (∃ name, (d.apply op).n.sws = d.n.sws.eraseP (fun x => x.name = name)) := by
-  cases op <;> simp only [DOp.isBase, reduceCtorEq] at hs <;> simp only [DNode.apply, DNode.freshSw]
+  cases op <;> simp only [DOp.swBase, reduceCtorEq] at hs <;> simp only [DNode.apply, DNode.freshSw]
   case appInstallReq s known =>
     split
     · exact Or.inr (Or.inl ⟨_, rfl, rfl⟩)
@@ -121,6 +168,25 @@ theorem C14_dyn_struct_sw (d : DNode) (op : DOp) (hs : op.isBase = false) :
   case fsCreateFile F f force => exact Or.inl (dapply_fs_sws d (.fsCreateFile F f force) rfl)
   case fsCopyFile sF f dF => exact Or.inl (dapply_fs_sws d (.fsCopyFile sF f dF) rfl)
   case dbReplace F f sF => exact Or.inl (dapply_fs_sws d (.dbReplace F f sF) rfl)
+  case folderSet F h => exact Or.inl rfl
+  case dbRestore pre dl => exact Or.inl (dbRestore_sws d pre dl)
+
+/-- the software list after a timestep with the database restore in it is the software list after a plain timestep -/
+theorem tickDb_sws (d : DNode) (pre : Bool) (dl : Option FsH) : (d.tickDb pre dl).n.sws = d.n.tick.sws := by
+  unfold DNode.tickDb Node.tick
+  simp only []
+  split
+  · simp only [mapFolders_sws, Node.itemPhase]
+    split
+    · rw [dbRestore_sws]
+    · rfl
+  · rfl
+
+theorem dapply_swBase_sws (d : DNode) (op : DOp) (b : Op) (h : op.swBase = some b) :
+    (d.apply op).n.sws = (d.n.apply b).sws := by
+  cases op <;> simp only [DOp.swBase, reduceCtorEq, Option.some.injEq] at h
+  case base b' => subst h; rfl
+  case tickDb pre dl => subst h; exact tickDb_sws d pre dl
 
 /-- **C14 dyn (software, one step, any state, any operation incl. install / uninstall).** Every software item present
 after the step is either an item that was present before — and then its visible health differs only if the step is a base
@@ -128,23 +194,21 @@ operation in which a scan covering it completes, the new value being its actual 
 installed in this very step, whose visible health is UNUSED. -/
 theorem C14_dyn_sw_visible_only_by_scan (d : DNode) (op : DOp) (x' : Sw) (hx' : x' ∈ (d.apply op).n.sws) :
     (∃ x ∈ d.n.sws, x'.name = x.name ∧
-      (x'.visible ≠ x.visible → ∃ b, op = .base b ∧ swScanCompletes d.n b (swMoment d.n b x) = true ∧
+      (x'.visible ≠ x.visible → ∃ b, op.swBase = some b ∧ swScanCompletes d.n b (swMoment d.n b x) = true ∧
         x'.visible = (swMoment d.n b x).actual)) ∨
     (d.freshSw op = some x' ∧ x'.visible = .unused) := by
-  by_cases hb : op.isBase = true
-  · cases op <;> simp only [DOp.isBase, reduceCtorEq] at hb
-    case base b =>
-      left
-      simp only [DNode.apply] at hx'
-      rw [apply_sws, List.mem_map] at hx'
-      obtain ⟨x, hx, rfl⟩ := hx'
-      refine ⟨x, hx, (swEff_name d.n b x).1, fun hne => ⟨b, rfl, ?_⟩⟩
-      have h := swEff_visible d.n b x
-      by_cases hc : swScanCompletes d.n b (swMoment d.n b x) = true
-      · simp only [hc, if_true] at h; exact ⟨hc, h⟩
-      · simp only [hc, if_false] at h; exact absurd h hne
-  · have hb' : op.isBase = false := by simpa using hb
-    rcases C14_dyn_struct_sw d op hb' with h | ⟨x, hx, h⟩ | ⟨name, h⟩
+  cases hb : op.swBase with
+  | some b =>
+    left
+    rw [dapply_swBase_sws d op b hb, apply_sws, List.mem_map] at hx'
+    obtain ⟨x, hx, rfl⟩ := hx'
+    refine ⟨x, hx, (swEff_name d.n b x).1, fun hne => ⟨b, rfl, ?_⟩⟩
+    have h := swEff_visible d.n b x
+    by_cases hc : swScanCompletes d.n b (swMoment d.n b x) = true
+    · simp only [hc, if_true] at h; exact ⟨hc, h⟩
+    · simp only [hc, if_false] at h; exact absurd h hne
+  | none =>
+    rcases C14_dyn_struct_sw d op hb with h | ⟨x, hx, h⟩ | ⟨name, h⟩
     · rw [h] at hx'; exact Or.inl ⟨x', hx', rfl, fun hne => absurd rfl hne⟩
     · rw [h, List.mem_append, List.mem_singleton] at hx'
       rcases hx' with hm | rfl
@@ -157,25 +221,24 @@ theorem C14_dyn_sw_visible_only_by_scan (d : DNode) (op : DOp) (x' : Sw) (hx' : 
 health it had, unless the step is a base operation that is one of the enumerated writers for it. -/
 theorem C14_dyn_sw_actual_only_by_event (d : DNode) (op : DOp) (x' : Sw) (hx' : x' ∈ (d.apply op).n.sws) :
     (∃ x ∈ d.n.sws, x'.name = x.name ∧
-      (x'.actual ≠ x.actual → ∃ b, op = .base b ∧ swActualCause d.n b x x'.actual)) ∨
+      (x'.actual ≠ x.actual → ∃ b, op.swBase = some b ∧ swActualCause d.n b x x'.actual)) ∨
     d.freshSw op = some x' := by
-  by_cases hb : op.isBase = true
-  · cases op <;> simp only [DOp.isBase, reduceCtorEq] at hb
-    case base b =>
-      left
-      simp only [DNode.apply] at hx'
-      obtain ⟨i, hi⟩ := List.getElem?_of_mem hx'
-      have hi' := hi
-      rw [apply_sws, List.getElem?_map] at hi
-      cases hxi : d.n.sws[i]? with
-      | none => rw [hxi] at hi; cases hi
-      | some x =>
-        rw [hxi] at hi
-        simp only [Option.map_some, Option.some.injEq] at hi
-        refine ⟨x, List.mem_of_getElem? hxi, by rw [← hi]; exact (swEff_name d.n b x).1, fun hne => ⟨b, rfl, ?_⟩⟩
-        exact C14_sw_actual_only_by_event d.n b i x x' hxi hi' hne
-  · have hb' : op.isBase = false := by simpa using hb
-    rcases C14_dyn_struct_sw d op hb' with h | ⟨x, hx, h⟩ | ⟨name, h⟩
+  cases hb : op.swBase with
+  | some b =>
+    left
+    rw [dapply_swBase_sws d op b hb] at hx'
+    obtain ⟨i, hi⟩ := List.getElem?_of_mem hx'
+    have hi' := hi
+    rw [apply_sws, List.getElem?_map] at hi
+    cases hxi : d.n.sws[i]? with
+    | none => rw [hxi] at hi; cases hi
+    | some x =>
+      rw [hxi] at hi
+      simp only [Option.map_some, Option.some.injEq] at hi
+      refine ⟨x, List.mem_of_getElem? hxi, by rw [← hi]; exact (swEff_name d.n b x).1, fun hne => ⟨b, rfl, ?_⟩⟩
+      exact C14_sw_actual_only_by_event d.n b i x x' hxi hi' hne
+  | none =>
+    rcases C14_dyn_struct_sw d op hb with h | ⟨x, hx, h⟩ | ⟨name, h⟩
     · rw [h] at hx'; exact Or.inl ⟨x', hx', rfl, fun hne => absurd rfl hne⟩
     · rw [h, List.mem_append, List.mem_singleton] at hx'
       rcases hx' with hm | rfl
@@ -188,10 +251,13 @@ theorem C14_dyn_sw_actual_only_by_event (d : DNode) (op : DOp) (x' : Sw) (hx' : 
 
 /-- one step of the instrumented run: every item is paired with its ghost record "actual health at the last completed
 covering scan"; installing appends `(fresh, UNUSED)`, uninstalling drops the pair of the uninstalled item. -/
+def dShadowBase (d : DNode) (b : Op) (ps : List (Sw × SwH)) : List (Sw × SwH) :=
+  ps.map (fun p => (swEff d.n b p.1, if swScanCompletes d.n b (swMoment d.n b p.1) then (swMoment d.n b p.1).actual else p.2))
+
 def dShadowStep (d : DNode) (op : DOp) (ps : List (Sw × SwH)) : List (Sw × SwH) :=
   match op with
-  | .base b =>
-    ps.map (fun p => (swEff d.n b p.1, if swScanCompletes d.n b (swMoment d.n b p.1) then (swMoment d.n b p.1).actual else p.2))
+  | .base b => dShadowBase d b ps
+  | .tickDb _ _ => dShadowBase d .tick ps
   | .appInstallReq s known =>
     if d.n.power = .on ∧ d.n.hasSw s.name = false ∧ known = true then ps ++ [({ s with isApp := true }.freshReq, .unused)] else ps
   | .appUninstallReq name => if d.n.power = .on then ps.eraseP (fun p => p.1.name = name) else ps
@@ -205,8 +271,13 @@ def dShadow (d : DNode) : List DOp → List (Sw × SwH) → List (Sw × SwH)
 
 theorem dShadowStep_fst (d : DNode) (op : DOp) (ps : List (Sw × SwH)) (h : ps.map (·.1) = d.n.sws) :
     (dShadowStep d op ps).map (·.1) = (d.apply op).n.sws := by
+  have hbase : ∀ b : Op, (dShadowBase d b ps).map (·.1) = (d.n.apply b).sws := by
+    intro b; unfold dShadowBase; rw [apply_sws, ← h, List.map_map, List.map_map]; rfl
   cases op <;> simp only [dShadowStep]
-  case base b => simp only [DNode.apply]; rw [apply_sws, ← h, List.map_map, List.map_map]; rfl
+  case base b => exact hbase b
+  case tickDb pre dl => rw [hbase]; exact (tickDb_sws d pre dl).symm
+  case folderSet F hh => rw [h]; rfl
+  case dbRestore pre dl => rw [h]; exact (dbRestore_sws d pre dl).symm
   case appInstallReq s known => simp only [DNode.apply]; split <;> simp [h]
   case appUninstallReq name =>
     simp only [DNode.apply]
@@ -223,8 +294,9 @@ theorem dShadowStep_fst (d : DNode) (op : DOp) (ps : List (Sw × SwH)) (h : ps.m
 theorem dShadowStep_inv (d : DNode) (op : DOp) (ps : List (Sw × SwH)) (hv : ∀ p ∈ ps, p.1.visible = p.2) :
     ∀ p ∈ dShadowStep d op ps, p.1.visible = p.2 := by
   intro p hp
-  cases op <;> simp only [dShadowStep] at hp
-  case base b =>
+  have hbase : ∀ b : Op, p ∈ dShadowBase d b ps → p.1.visible = p.2 := by
+    intro b hp
+    unfold dShadowBase at hp
     rw [List.mem_map] at hp
     obtain ⟨q, hq, rfl⟩ := hp
     simp only []
@@ -232,6 +304,9 @@ theorem dShadowStep_inv (d : DNode) (op : DOp) (ps : List (Sw × SwH)) (hv : ∀
     split
     · rfl
     · exact hv q hq
+  cases op <;> simp only [dShadowStep] at hp
+  case base b => exact hbase b hp
+  case tickDb pre dl => exact hbase .tick hp
   case appInstallReq s known =>
     split at hp
     · rw [List.mem_append, List.mem_singleton] at hp
@@ -275,15 +350,13 @@ theorem C14_dyn_fixing_has_countdown (ops : List DOp) : ∀ d : DNode,
     intro d h
     apply ih (d.apply op)
     intro y hy
-    by_cases hb : op.isBase = true
-    · cases op <;> simp only [DOp.isBase, reduceCtorEq] at hb
-      case base b =>
-        simp only [DNode.apply] at hy
-        rw [apply_sws, List.mem_map] at hy
-        obtain ⟨x, hx, rfl⟩ := hy
-        exact swEff_fixOk d.n b x (h x hx)
-    · have hb' : op.isBase = false := by simpa using hb
-      rcases C14_dyn_struct_sw d op hb' with e | ⟨x, hx, e⟩ | ⟨name, e⟩
+    cases hb : op.swBase with
+    | some b =>
+      rw [dapply_swBase_sws d op b hb, apply_sws, List.mem_map] at hy
+      obtain ⟨x, hx, rfl⟩ := hy
+      exact swEff_fixOk d.n b x (h x hx)
+    | none =>
+      rcases C14_dyn_struct_sw d op hb with e | ⟨x, hx, e⟩ | ⟨name, e⟩
       · rw [e] at hy; exact h y hy
       · rw [e, List.mem_append, List.mem_singleton] at hy
         rcases hy with hy | rfl
@@ -308,35 +381,53 @@ theorem C14_dyn_fixing_has_countdown (ops : List DOp) : ∀ d : DNode,
 
 /-! ## 3. structural operations: folders and files -/
 
+/-- the health value that comes from OUTSIDE the node in this operation, if any: the copy a database restore downloads from the
+backup server carries whatever health the backup has -/
+def DOp.ext : DOp → Option FsH
+  | .dbRestore _ dl => dl
+  | .folderSet _ h => some h
+  | _ => none
+
 /-- where the health values of a file present after a structural step come from: a file of the same name that existed
 before the step (itself, unchanged; the source of a copy; the file a database restore replaces), or the initial values of a
-created file (visible NONE, actual GOOD) -/
-def FileOrigin (n : Node) (f' : File) : Prop :=
+created file (visible NONE, actual GOOD) — or, for the ACTUAL health only, the value `ext` that arrived over the network -/
+def FileOrigin (ext : Option FsH) (n : Node) (f' : File) : Prop :=
   ((∃ G ∈ n.folders, ∃ f ∈ G.files, f.name = f'.name ∧ f'.visible = f.visible) ∨ f'.visible = .none) ∧
-  ((∃ G ∈ n.folders, ∃ f ∈ G.files, f.name = f'.name ∧ f'.actual = f.actual) ∨ f'.actual = .good)
+  ((∃ G ∈ n.folders, ∃ f ∈ G.files, f.name = f'.name ∧ f'.actual = f.actual) ∨ f'.actual = .good ∨ ext = some f'.actual)
 
-theorem FileOrigin.self {n : Node} {G : Folder} {f : File} (hG : G ∈ n.folders) (hf : f ∈ G.files) : FileOrigin n f :=
+theorem FileOrigin.self {ext : Option FsH} {n : Node} {G : Folder} {f : File} (hG : G ∈ n.folders) (hf : f ∈ G.files) :
+    FileOrigin ext n f :=
   ⟨Or.inl ⟨G, hG, f, hf, rfl, rfl⟩, Or.inl ⟨G, hG, f, hf, rfl, rfl⟩⟩
 
-theorem FileOrigin.congr {n : Node} {f g : File} (h : FileOrigin n f) (h1 : g.name = f.name) (h2 : g.visible = f.visible)
-    (h3 : g.actual = f.actual) : FileOrigin n g := by
+theorem FileOrigin.congr {ext : Option FsH} {n : Node} {f g : File} (h : FileOrigin ext n f) (h1 : g.name = f.name)
+    (h2 : g.visible = f.visible) (h3 : g.actual = f.actual) : FileOrigin ext n g := by
   unfold FileOrigin at h ⊢
   rw [h1, h2, h3]; exact h
 
+/-- a file that shows what `a` showed and has the health `b` had (all three of one name) -/
+theorem FileOrigin.mix {ext : Option FsH} {n : Node} {a b x : File} (ha : FileOrigin ext n a) (hb : FileOrigin ext n b)
+    (hn1 : x.name = a.name) (hn2 : x.name = b.name) (hv : x.visible = a.visible) (hact : x.actual = b.actual) :
+    FileOrigin ext n x := by
+  unfold FileOrigin at ha hb ⊢
+  rw [hv, hact]
+  refine ⟨?_, ?_⟩
+  · rw [hn1]; exact ha.1
+  · rw [hn2]; exact hb.2
+
 /-- every folder of `n'` shows the visible health of a same-named folder of `n` or is new (NONE); every file of `n'` has an
 origin in `n` -/
-def StructOk (n n' : Node) : Prop :=
+def StructOk (ext : Option FsH) (n n' : Node) : Prop :=
   ∀ G' ∈ n'.folders,
-    ((∃ G ∈ n.folders, G.name = G'.name ∧ G'.visible = G.visible) ∨ G'.visible = .none) ∧ ∀ f' ∈ G'.files, FileOrigin n f'
+    ((∃ G ∈ n.folders, G.name = G'.name ∧ G'.visible = G.visible) ∨ G'.visible = .none) ∧ ∀ f' ∈ G'.files, FileOrigin ext n f'
 
-theorem StructOk.refl (n : Node) : StructOk n n :=
+theorem StructOk.refl (ext : Option FsH) (n : Node) : StructOk ext n n :=
   fun G hG => ⟨Or.inl ⟨G, hG, rfl, rfl⟩, fun _ hf => FileOrigin.self hG hf⟩
 
 /-- a per-folder update that keeps name and visible health and only yields files with an origin -/
-theorem StructOk.mapFolders {n n' : Node} (h : StructOk n n') (g : Folder → Folder)
+theorem StructOk.mapFolders {ext : Option FsH} {n n' : Node} (h : StructOk ext n n') (g : Folder → Folder)
     (hg : ∀ G, (g G).name = G.name ∧ (g G).visible = G.visible ∧
-      ((∀ f' ∈ G.files, FileOrigin n f') → ∀ f' ∈ (g G).files, FileOrigin n f')) :
-    StructOk n (n'.mapFolders g) := by
+      ((∀ f' ∈ G.files, FileOrigin ext n f') → ∀ f' ∈ (g G).files, FileOrigin ext n f')) :
+    StructOk ext n (n'.mapFolders g) := by
   intro G' hG'
   simp only [mapFolders_folders, List.mem_map] at hG'
   obtain ⟨G, hG, rfl⟩ := hG'
@@ -346,8 +437,8 @@ theorem StructOk.mapFolders {n n' : Node} (h : StructOk n n') (g : Folder → Fo
   · exact Or.inl ⟨G0, a, by rw [h1]; exact b, by rw [h2]; exact c⟩
   · exact Or.inr (by rw [h2]; exact hv)
 
-theorem StructOk.addFile {n n' : Node} (h : StructOk n n') (F : String) (x : File) (hx : FileOrigin n x) :
-    StructOk n (n'.addFile F x) := by
+theorem StructOk.addFile {ext : Option FsH} {n n' : Node} (h : StructOk ext n n') (F : String) (x : File)
+    (hx : FileOrigin ext n x) : StructOk ext n (n'.addFile F x) := by
   apply h.mapFolders
   intro G
   split
@@ -358,8 +449,8 @@ theorem StructOk.addFile {n n' : Node} (h : StructOk n n') (F : String) (x : Fil
     · exact hx
   · exact ⟨rfl, rfl, fun hall => hall⟩
 
-theorem StructOk.deleteFile {n n' : Node} (h : StructOk n n') (F f : String) :
-    StructOk n (n'.mapLiveFolder F (fun G => G.mapLiveFile f File.delete)) := by
+theorem StructOk.deleteFile {ext : Option FsH} {n n' : Node} (h : StructOk ext n n') (F f : String) :
+    StructOk ext n (n'.mapLiveFolder F (fun G => G.mapLiveFile f File.delete)) := by
   apply h.mapFolders
   intro G
   split
@@ -371,7 +462,8 @@ theorem StructOk.deleteFile {n n' : Node} (h : StructOk n n') (F f : String) :
     · exact hall f0 hf0
   · exact ⟨rfl, rfl, fun hall => hall⟩
 
-theorem StructOk.createFolder {n : Node} {d : DNode} (h : StructOk n d.n) (F : String) : StructOk n (d.createFolder F).n := by
+theorem StructOk.createFolder {ext : Option FsH} {n : Node} {d : DNode} (h : StructOk ext n d.n) (F : String) :
+    StructOk ext n (d.createFolder F).n := by
   unfold DNode.createFolder
   split
   · apply h.mapFolders
@@ -385,7 +477,42 @@ theorem StructOk.createFolder {n : Node} {d : DNode} (h : StructOk n d.n) (F : S
     · exact h G' hG'
     · exact ⟨Or.inr rfl, fun f' hf' => by simp [DNode.freshFolder] at hf'⟩
 
-theorem freshFile_origin (n : Node) (f : String) : FileOrigin n (freshFile f) := ⟨Or.inr rfl, Or.inr rfl⟩
+theorem freshFile_origin (ext : Option FsH) (n : Node) (f : String) : FileOrigin ext n (freshFile f) :=
+  ⟨Or.inr rfl, Or.inr (Or.inl rfl)⟩
+
+theorem StructOk.createFile {ext : Option FsH} {n : Node} {d : DNode} (h : StructOk ext n d.n) (F f : String) :
+    StructOk ext n (d.createFile F f).n := by
+  have key : ∀ e : DNode, StructOk ext n e.n → StructOk ext n (e.addNewFile F f).n := by
+    intro e he
+    unfold DNode.addNewFile
+    split
+    · split
+      · exact he
+      · exact he.addFile F _ (freshFile_origin _ _ f)
+    · exact he
+  unfold DNode.createFile
+  apply key
+  split
+  · exact h
+  · exact h.createFolder F
+
+/-- the external write of a FILE's health (`Op.fileSet`, here: the downloaded copy gets the backup's health) keeps what every
+file shows; the written value is `ext` -/
+theorem StructOk.fileSet {n n' : Node} {hh : FsH} (h : StructOk (some hh) n n') (F f : String) :
+    StructOk (some hh) n (n'.apply (.fileSet F f hh)) := by
+  have : n'.apply (.fileSet F f hh) = n'.mapFolder F (fun G => G.mapFile f (fun x => { x with actual := hh })) := rfl
+  rw [this]
+  unfold Node.mapFolder
+  apply h.mapFolders
+  intro G
+  split
+  · refine ⟨rfl, rfl, fun hall f' hf' => ?_⟩
+    simp only [Folder.mapFile, mapNamed, List.mem_map] at hf'
+    obtain ⟨f0, hf0, rfl⟩ := hf'
+    split
+    · exact ⟨(hall f0 hf0).1, Or.inr (Or.inr rfl)⟩
+    · exact hall f0 hf0
+  · exact ⟨rfl, rfl, fun hall => hall⟩
 
 theorem liveFile?_mem {n : Node} {F f : String} {x : File} (h : n.liveFile? F f = some x) :
     ∃ G ∈ n.folders, x ∈ G.files ∧ x.name = f := by
@@ -410,14 +537,84 @@ theorem firstAny_mem {f : String} {fs : List File} {x : File} (h : firstAny f fs
     simp only [decide_eq_true_eq] at this
     exact ⟨List.mem_of_find?_eq_some h, this⟩
 
-/-- **C14 dyn (files and folders, structural step).** After an install / uninstall / create / copy / database replacement
+/-- `copy_file` from any intermediate state -/
+theorem StructOk.copyFile {ext : Option FsH} {n : Node} {d : DNode} (h : StructOk ext n d.n) (sF f dF : String) :
+    StructOk ext n (d.copyFile sF f dF).n := by
+  unfold DNode.copyFile
+  split
+  · exact h
+  · rename_i src hsrc
+    obtain ⟨G, hG, hmem, hname⟩ := liveFile?_mem hsrc
+    have hs := (h G hG).2 src hmem
+    have ho : FileOrigin ext n { name := f, actual := src.actual, visible := src.visible, deleted := false } :=
+      hs.congr hname.symm rfl rfl
+    simp only []
+    split
+    · exact (h.deleteFile dF f).addFile dF _ ho
+    · exact ((h.createFolder dF).deleteFile dF f).addFile dF _ ho
+
+/-- the replacement step of the database restore from any intermediate state: the file it adds shows what the replaced file
+showed and has the health of the downloaded copy -/
+theorem StructOk.dbReplace {ext : Option FsH} {n : Node} {d : DNode} (h : StructOk ext n d.n) (F f sF : String) :
+    StructOk ext n (d.dbReplace F f sF).n := by
+  unfold DNode.dbReplace
+  split
+  · exact h
+  · rename_i src hsrc
+    obtain ⟨Gs, hGs, hmem, hname⟩ := liveFile?_mem hsrc
+    have hs := (h Gs hGs).2 src hmem
+    split
+    · rename_i G hG
+      have hGm : G ∈ d.n.folders := List.mem_of_find?_eq_some hG
+      split
+      · exact h
+      · rename_i old hold
+        obtain ⟨holdm, holdn⟩ := firstAny_mem hold
+        have ho := (h G hGm).2 old holdm
+        exact (h.deleteFile F f).addFile F _ (FileOrigin.mix ho hs holdn.symm hname.symm rfl rfl)
+    · split
+      · exact h
+      · rename_i G hG
+        have hGm : G ∈ d.n.folders := List.mem_of_find?_eq_some hG
+        split
+        · exact h
+        · rename_i old hold
+          obtain ⟨holdm, holdn⟩ := firstAny_mem hold
+          have ho := (h G hGm).2 old holdm
+          exact (h.createFolder F).addFile F _ (FileOrigin.mix ho hs holdn.symm hname.symm rfl rfl)
+
+/-- the whole of `restore_backup()` from any intermediate state -/
+theorem StructOk.dbRestore {n : Node} {d : DNode} (pre : Bool) (dl : Option FsH) (h : StructOk dl n d.n) :
+    StructOk dl n (d.dbRestore pre dl).n := by
+  have h1 : StructOk dl n (d.dlClear pre).n := by
+    unfold DNode.dlClear
+    split
+    · exact h.deleteFile dlFolder dbFile
+    · exact h
+  unfold DNode.dbRestore
+  cases dl with
+  | none => exact h1
+  | some hh =>
+    simp only []
+    apply StructOk.dbReplace
+    unfold DNode.dlArrive
+    have ho : FileOrigin (some hh) n (arrivedFile hh) := ⟨Or.inr rfl, Or.inr (Or.inr rfl)⟩
+    split
+    · exact h1
+    · simp only []
+      split
+      · exact h1.addFile dlFolder _ ho
+      · exact (h1.createFolder dlFolder).addFile dlFolder _ ho
+
+/-- **C14 dyn (files and folders, structural step).** After an install / uninstall / create / copy / database restore
 every folder shows the visible health of a folder of the same name that existed before, or is new and shows NONE; and
 every file has the visible health of a file of the same name that existed before the step — itself unchanged, the
 source of the copy, or the file the database restore replaced — or is a created file showing NONE; likewise its actual
-health (same-named file before the step, or GOOD for a created file). No structural operation invents a health value. -/
-theorem C14_dyn_struct_fs (d : DNode) (op : DOp) (hs : op.isBase = false) : StructOk d.n (d.apply op).n := by
-  have h0 := StructOk.refl d.n
-  cases op <;> simp only [DOp.isBase, reduceCtorEq] at hs <;> simp only [DNode.apply]
+health (same-named file before the step, GOOD for a created file, or — database restore only — the health of the copy that
+arrived from the backup server). No structural operation invents a VISIBLE health value. -/
+theorem C14_dyn_struct_fs (d : DNode) (op : DOp) (hs : op.swBase = none) : StructOk op.ext d.n (d.apply op).n := by
+  have h0 := StructOk.refl op.ext d.n
+  cases op <;> simp only [DOp.swBase, reduceCtorEq] at hs <;> simp only [DNode.apply]
   case appInstallReq s known => split <;> exact h0
   case appUninstallReq name => split <;> exact h0
   case swInstallApi s => exact h0
@@ -430,56 +627,343 @@ theorem C14_dyn_struct_fs (d : DNode) (op : DOp) (hs : op.isBase = false) : Stru
     split
     · split
       · exact h0
-      · have key : ∀ e : DNode, StructOk d.n e.n → StructOk d.n (e.addNewFile F f).n := by
-          intro e he
-          unfold DNode.addNewFile
-          split
-          · split
-            · exact he
-            · exact he.addFile F _ (freshFile_origin _ f)
-          · exact he
-        unfold DNode.createFile
-        apply key
-        split
-        · exact h0
-        · exact h0.createFolder F
+      · exact h0.createFile F f
     · exact h0
-  case fsCopyFile sF f dF =>
-    unfold DNode.copyFile
+  case fsCopyFile sF f dF => exact h0.copyFile sF f dF
+  case dbReplace F f sF => exact h0.dbReplace F f sF
+  case folderSet F hh =>
+    unfold Node.mapFolder
+    apply h0.mapFolders
+    intro G
     split
-    · exact h0
-    · rename_i src hsrc
-      obtain ⟨G, hG, hmem, hname⟩ := liveFile?_mem hsrc
-      have ho : FileOrigin d.n { name := f, actual := src.actual, visible := src.visible, deleted := false } :=
-        ⟨Or.inl ⟨G, hG, src, hmem, hname, rfl⟩, Or.inl ⟨G, hG, src, hmem, hname, rfl⟩⟩
-      simp only []
-      split
-      · exact (h0.deleteFile dF f).addFile dF _ ho
-      · exact ((h0.createFolder dF).deleteFile dF f).addFile dF _ ho
-  case dbReplace F f sF =>
-    unfold DNode.dbReplace
-    split
-    · rename_i src G hsrc hG
-      split
-      · exact h0
-      · rename_i old hold
-        obtain ⟨Gs, hGs, hmem, hname⟩ := liveFile?_mem hsrc
-        have hGm : G ∈ d.n.folders := List.mem_of_find?_eq_some hG
-        obtain ⟨holdm, holdn⟩ := firstAny_mem hold
-        have ho : FileOrigin d.n { name := f, actual := src.actual, visible := old.visible, deleted := false } :=
-          ⟨Or.inl ⟨G, hGm, old, holdm, holdn, rfl⟩, Or.inl ⟨Gs, hGs, src, hmem, hname, rfl⟩⟩
-        exact (h0.deleteFile F f).addFile F _ ho
-    · exact h0
+    · exact ⟨rfl, rfl, fun hall => hall⟩
+    · exact ⟨rfl, rfl, fun hall => hall⟩
+  case dbRestore pre dl => exact StructOk.dbRestore pre dl h0
 
-/-- **C14 dyn (database restore).** The replacement step of `DatabaseService.restore_backup`: if it happens at all, the
-file it adds shows exactly the visible health the replaced file showed (no scan, no new information for the observer), its
-actual health is that of the downloaded copy, and it is the only new file. -/
+/-- **C14 dyn (database restore, replacement step).** If the copy has arrived (`src`) and the database file is found — live
+or deleted — in a LIVE database folder, the step deletes the live file and adds exactly one file: actual = the copy's, visible =
+what the replaced file showed (no scan, no new information for the observer). -/
 theorem C14_dyn_db_replace (d : DNode) (F f sF : String) (src old : File) (G : Folder)
     (hsrc : d.n.liveFile? sF f = some src) (hG : d.n.liveFolder? F = some G) (hold : firstAny f G.files = some old) :
     (d.apply (.dbReplace F f sF)).n =
       (d.n.mapLiveFolder F (fun G => G.mapLiveFile f File.delete)).addFile F
         { name := f, actual := src.actual, visible := old.visible, deleted := false } := by
   simp only [DNode.apply, DNode.dbReplace, hsrc, hG, hold]
+
+/-- …and when only a DELETED folder of that name holds the database file, `copy_file` creates a NEW folder of that name for the
+copy, which again shows what the (deleted) file showed. -/
+theorem C14_dyn_db_replace_deleted_folder (d : DNode) (F f sF : String) (src old : File) (G : Folder)
+    (hsrc : d.n.liveFile? sF f = some src) (hno : d.n.liveFolder? F = none) (hG : d.n.findFolder F = some G)
+    (hold : firstAny f G.files = some old) :
+    (d.apply (.dbReplace F f sF)).n =
+      (d.createFolder F).n.addFile F { name := f, actual := src.actual, visible := old.visible, deleted := false } := by
+  simp only [DNode.apply, DNode.dbReplace, hsrc, hno, hG, hold]
+
+/-- **C14 dyn (external folder write).** The stand-in for `DatabaseService._process_sql`'s `database_folder.health_status =
+CORRUPT` writes the ACTUAL health of the folders of that name and nothing else: no software item, no file, no visible value. -/
+theorem C14_dyn_folder_set (d : DNode) (F : String) (h : FsH) :
+    (d.apply (.folderSet F h)).n.sws = d.n.sws ∧
+    (d.apply (.folderSet F h)).n.folders = d.n.folders.map (fun G => if G.name = F then { G with actual := h } else G) :=
+  ⟨rfl, rfl⟩
+
+/-! ## 3b. what the agent sees BY NAME for a file that a database restore replaces -/
+
+theorem find?_map_pres {α : Type} (l : List α) (g : α → α) (p : α → Bool) (h : ∀ a, p (g a) = p a) :
+    (l.map g).find? p = (l.find? p).map g := by
+  rw [List.find?_map]
+  have : (p ∘ g) = p := funext h
+  rw [this]
+
+/-- a per-folder update that keeps names and deleted flags and leaves the folders named `F` alone does not change what is seen
+under `F` -/
+theorem liveFile?_mapFolders_other (n : Node) (g : Folder → Folder) (F f : String)
+    (hg : ∀ G, (g G).name = G.name ∧ (g G).deleted = G.deleted) (hF : ∀ G, G.name = F → g G = G) :
+    (n.mapFolders g).liveFile? F f = n.liveFile? F f := by
+  unfold Node.liveFile? Node.liveFolder? Node.findLiveFolder
+  simp only [mapFolders_folders]
+  rw [find?_map_pres _ g _ (by intro G; rw [(hg G).1, (hg G).2])]
+  cases hfind : n.folders.find? (fun G => decide (G.name = F) && !G.deleted) with
+  | none => rfl
+  | some G =>
+    have := List.find?_some hfind
+    simp only [Bool.and_eq_true, decide_eq_true_eq] at this
+    simp only [Option.map_some, hF G this.1]
+
+theorem liveFile?_append_folder (n : Node) (H : Folder) (F f : String) (x : File) (h : n.liveFile? F f = some x) :
+    ({ n with folders := n.folders ++ [H] } : Node).liveFile? F f = some x := by
+  unfold Node.liveFile? Node.liveFolder? Node.findLiveFolder at h ⊢
+  simp only [List.find?_append]
+  cases hfind : n.folders.find? (fun G => decide (G.name = F) && !G.deleted) with
+  | none => rw [hfind] at h; cases h
+  | some G => rw [hfind] at h; simpa using h
+
+theorem mapLiveFolder_other (n : Node) (D F f : String) (g : Folder → Folder) (hne : D ≠ F)
+    (hg : ∀ G, (g G).name = G.name ∧ (g G).deleted = G.deleted) :
+    (n.mapLiveFolder D g).liveFile? F f = n.liveFile? F f := by
+  unfold Node.mapLiveFolder
+  apply liveFile?_mapFolders_other
+  · intro G; split
+    · exact hg G
+    · exact ⟨rfl, rfl⟩
+  · intro G hG
+    split
+    · rename_i h; exact absurd (h.1.symm.trans hG) hne
+    · rfl
+
+theorem createFolder_other (d : DNode) (D F f : String) (x : File) (hne : D ≠ F) (h : d.n.liveFile? F f = some x) :
+    (d.createFolder D).n.liveFile? F f = some x := by
+  unfold DNode.createFolder
+  split
+  · simp only []
+    exact (mapLiveFolder_other _ _ _ _ _ hne (by intro G; exact ⟨rfl, rfl⟩)).trans h
+  · exact liveFile?_append_folder _ _ _ _ _ h
+
+theorem createFile_other (d : DNode) (D g F f : String) (x : File) (hne : D ≠ F) (h : d.n.liveFile? F f = some x) :
+    (d.createFile D g).n.liveFile? F f = some x := by
+  have key : ∀ e : DNode, e.n.liveFile? F f = some x → (e.addNewFile D g).n.liveFile? F f = some x := by
+    intro e he
+    unfold DNode.addNewFile
+    split
+    · split
+      · exact he
+      · simp only [Node.addFile]
+        exact (mapLiveFolder_other _ _ _ _ _ hne (by intro G; exact ⟨rfl, rfl⟩)).trans he
+    · exact he
+  unfold DNode.createFile
+  apply key
+  split
+  · exact h
+  · exact createFolder_other d D F f x hne h
+
+theorem findLive_deleted_all (f : String) (fs : List File) :
+    findLive f (fs.map (fun x => if x.name = f ∧ x.deleted = false then x.delete else x)) = none := by
+  unfold findLive
+  rw [List.find?_eq_none]
+  intro y hy
+  rw [List.mem_map] at hy
+  obtain ⟨x, _, rfl⟩ := hy
+  by_cases h : x.name = f ∧ x.deleted = false
+  · simp [h]
+  · rw [if_neg h]
+    simp only [Bool.and_eq_true, decide_eq_true_eq, Bool.not_eq_true', not_and]
+    intro hn; cases hd : x.deleted
+    · exact absurd ⟨hn, hd⟩ h
+    · simp
+
+/-- **C14 (replaced file, replacement step).** If `F/f` is a live file showing `v`, then after the replacement step of a
+database restore the name `F/f` still shows `v` — whatever the downloaded copy's health is, and although the file object behind
+the name is a new one that no scan has ever covered. -/
+theorem C14_view_db_replace (d : DNode) (F f sF : String) (old : File) (h : d.n.liveFile? F f = some old) :
+    (d.dbReplace F f sF).n.seenFile F f = some old.visible := by
+  unfold Node.seenFile
+  have hcopy := h
+  unfold Node.liveFile? at h
+  cases hG : d.n.liveFolder? F with
+  | none => rw [hG] at h; cases h
+  | some G =>
+    rw [hG] at h
+    simp only [] at h
+    have hGp := List.find?_some hG
+    simp only [Bool.and_eq_true, decide_eq_true_eq, Bool.not_eq_true'] at hGp
+    have hfa : firstAny f G.files = some old := by unfold firstAny; rw [h]
+    unfold DNode.dbReplace
+    cases hsrc : d.n.liveFile? sF f with
+    | none => simp only [hcopy, Option.map_some]
+    | some src =>
+      simp only [hG, hfa]
+      -- the new node: folders mapped by `g2`
+      let new : File := { name := f, actual := src.actual, visible := old.visible, deleted := false }
+      let g2 : Folder → Folder := fun H =>
+        (fun K : Folder => if K.name = F ∧ K.deleted = false then { K with files := K.files ++ [new] } else K)
+          (if H.name = F ∧ H.deleted = false then H.mapLiveFile f File.delete else H)
+      have hn2 : ((d.n.mapLiveFolder F (fun G => G.mapLiveFile f File.delete)).addFile F new).folders = d.n.folders.map g2 := by
+        simp only [Node.addFile, Node.mapLiveFolder, mapFolders_folders, List.map_map]; rfl
+      have hg2 : ∀ H, (decide ((g2 H).name = F) && !(g2 H).deleted) = (decide (H.name = F) && !H.deleted) := by
+        intro H
+        simp only [g2]
+        by_cases hH : H.name = F ∧ H.deleted = false
+        · simp [hH, Folder.mapLiveFile]
+        · simp only [hH, if_false]
+      unfold Node.liveFile? Node.liveFolder? Node.findLiveFolder
+      rw [hn2, find?_map_pres _ g2 _ hg2]
+      have hG' : d.n.folders.find? (fun G => decide (G.name = F) && !G.deleted) = some G := hG
+      rw [hG']
+      simp only [Option.map_some, g2, hGp.1, hGp.2, and_self, if_true, Folder.mapLiveFile]
+      unfold findLive
+      rw [List.find?_append]
+      have := findLive_deleted_all f G.files
+      unfold findLive at this
+      rw [this]
+      simp [new]
+
+theorem dlClear_other (d : DNode) (pre : Bool) (old : File) (h : d.n.liveFile? dbFolder dbFile = some old) :
+    (d.dlClear pre).n.liveFile? dbFolder dbFile = some old := by
+  unfold DNode.dlClear
+  split
+  · simp only []
+    exact (mapLiveFolder_other _ dlFolder dbFolder _ _ (by decide) (by intro G; exact ⟨rfl, rfl⟩)).trans h
+  · exact h
+
+theorem dlArrive_other (d : DNode) (hh : FsH) (old : File) (h : d.n.liveFile? dbFolder dbFile = some old) :
+    (d.dlArrive hh).n.liveFile? dbFolder dbFile = some old := by
+  unfold DNode.dlArrive
+  split
+  · exact h
+  · simp only [Node.addFile]
+    split
+    · exact (mapLiveFolder_other _ dlFolder dbFolder _ _ (by decide) (by intro G; exact ⟨rfl, rfl⟩)).trans h
+    · exact (mapLiveFolder_other _ dlFolder dbFolder _ _ (by decide) (by intro G; exact ⟨rfl, rfl⟩)).trans
+        (createFolder_other d dlFolder dbFolder dbFile old (by decide) h)
+
+/-- **C14 (replaced file, whole restore).** `DatabaseService.restore_backup()` — whatever the network delivered, whether or not
+a leftover download was cleared first — never changes what the agent sees for a live `database/database.db`: the name shows
+after the restore what it showed before, until a scan covers the new file. -/
+theorem C14_view_db_restore (d : DNode) (pre : Bool) (dl : Option FsH) (old : File)
+    (h : d.n.liveFile? dbFolder dbFile = some old) :
+    (d.apply (.dbRestore pre dl)).n.seenFile dbFolder dbFile = d.n.seenFile dbFolder dbFile := by
+  have hb : d.n.seenFile dbFolder dbFile = some old.visible := by unfold Node.seenFile; rw [h]; rfl
+  rw [hb]
+  simp only [DNode.apply, DNode.dbRestore]
+  cases dl with
+  | none => simp only []; unfold Node.seenFile; rw [dlClear_other d pre old h]; rfl
+  | some hh =>
+    simp only []
+    exact C14_view_db_replace _ _ _ _ old (dlArrive_other _ hh old (dlClear_other d pre old h))
+
+/-- a restore does not touch the software list, so nothing the agent sees for software changes either -/
+theorem C14_view_db_restore_sw (d : DNode) (pre : Bool) (dl : Option FsH) (name : String) :
+    (d.apply (.dbRestore pre dl)).n.seenSw name = d.n.seenSw name := by
+  unfold Node.seenSw
+  simp only [DNode.apply]
+  rw [dbRestore_sws]
+
+/-! ### the timestep with the database restore in it -/
+
+/-- **C14 (in-tick restore = plain timestep unless the database fix completes).** `tickDb` is `Node.tick` whenever the fix of
+the database service does not complete in this timestep (or the node is not ON), and also when it completes but the network
+delivers nothing (`dl = none`, nothing cleared). -/
+theorem C14_tickdb_eq_tick (d : DNode) (pre : Bool) (dl : Option FsH)
+    (h : d.n.powerPhase.scanPhase.dbFixCompletes = false ∨ (pre = false ∧ dl = none)) :
+    (d.apply (.tickDb pre dl)).n = d.n.tick := by
+  simp only [DNode.apply, DNode.tickDb, Node.tick]
+  split
+  · rcases h with h | ⟨h1, h2⟩
+    · simp only [h, Bool.false_eq_true, if_false, Node.itemPhase]
+    · subst h1; subst h2
+      simp only [DNode.dbRestore, DNode.dlClear, Bool.false_eq_true, if_false, ite_self, Node.itemPhase]
+  · rfl
+
+/-- the three phases of a timestep with a restore, and the C14 statement for the middle one: between the software ticks and the
+folder ticks the restore is a structural step (`StructOk`): no visible value is invented, and the database file keeps what it
+showed (`C14_view_db_restore`). The first and the last phase are those of `Node.tick`. -/
+theorem C14_tickdb_phases (d : DNode) (pre : Bool) (dl : Option FsH) (hon : d.n.powerPhase.power = .on)
+    (hfix : d.n.powerPhase.scanPhase.dbFixCompletes = true) :
+    let mid : DNode := { d with n := d.n.powerPhase.scanPhase.mapSws Sw.tick }
+    (d.apply (.tickDb pre dl)).n = (mid.dbRestore pre dl).n.mapFolders (fun F => if F.deleted then F else F.tick) ∧
+    StructOk dl mid.n (mid.dbRestore pre dl).n := by
+  refine ⟨?_, StructOk.dbRestore pre dl (StructOk.refl _ _)⟩
+  simp only [DNode.apply, DNode.tickDb, hon, if_true, hfix]
+
+/-! ## 3c. the one-step statements BY NAME (what the agent sees), for base operations -/
+
+theorem nodup_map_unique {α : Type} (nm : α → String) : ∀ (l : List α), (l.map nm).Nodup →
+    ∀ {a b : α}, a ∈ l → b ∈ l → nm a = nm b → a = b := by
+  intro l
+  induction l with
+  | nil => intro _ a b ha; cases ha
+  | cons x xs ih =>
+    intro hnd a b ha hb hn
+    simp only [List.map_cons, List.nodup_cons, List.mem_map, not_exists, not_and] at hnd
+    simp only [List.mem_cons] at ha hb
+    rcases ha with rfl | ha <;> rcases hb with rfl | hb
+    · rfl
+    · exact absurd hn.symm (hnd.1 b hb)
+    · exact absurd hn (hnd.1 a ha)
+    · exact ih hnd.2 ha hb hn
+
+/-- **C14 by name (software).** What the agent sees for the software item called `name` differs after a base operation only if a
+scan covering that item completes in the step, and is then the item's actual health at that moment. (No uniqueness assumption:
+`describe_state()`'s dictionary and the model both resolve a name to the same item before and after.) -/
+theorem C14_view_sw (n : Node) (b : Op) (name : String) (v v' : SwH)
+    (h : n.seenSw name = some v) (h' : (n.apply b).seenSw name = some v') (hne : v' ≠ v) :
+    ∃ x, n.sws.find? (fun x => x.name = name) = some x ∧ swScanCompletes n b (swMoment n b x) = true ∧
+      v' = (swMoment n b x).actual := by
+  unfold Node.seenSw at h h'
+  rw [apply_sws, find?_map_pres _ (swEff n b) _ (by intro a; rw [(swEff_name n b a).1])] at h'
+  cases hfind : n.sws.find? (fun x => decide (x.name = name)) with
+  | none => rw [hfind] at h; cases h
+  | some x =>
+    rw [hfind] at h h'
+    simp only [Option.map_some, Option.some.injEq] at h h'
+    refine ⟨x, rfl, ?_⟩
+    have hv := swEff_visible n b x
+    cases hc : swScanCompletes n b (swMoment n b x)
+    · rw [hc] at hv
+      simp only [Bool.false_eq_true, if_false] at hv
+      exact absurd (by rw [← h', hv, h]) hne
+    · rw [hc] at hv
+      simp only [if_true] at hv
+      exact ⟨rfl, by rw [← h', hv]⟩
+
+/-- **C14 by name (files).** On a node whose folder names and, per folder, file names are unique (`Node.wf`, the abstraction the
+rig checks on every trace): what the agent sees for `F/f` — both before and after the step a live file of a live folder —
+differs after a base operation only if a scan covering that file completes in the step (its own scan request; the whole-node
+scan's fan-out; the folder's timed scan), and is then the file's actual health. -/
+theorem C14_view_file (n : Node) (b : Op) (F f : String) (v v' : FsH) (hwf : n.wf = true)
+    (h : n.seenFile F f = some v) (h' : (n.apply b).seenFile F f = some v') (hne : v' ≠ v) :
+    ∃ G x, n.liveFolder? F = some G ∧ findLive f G.files = some x ∧ fileScanCompletes n b G x = true ∧ v' = x.actual := by
+  simp only [Node.wf, Bool.and_eq_true, decide_eq_true_eq, List.all_eq_true] at hwf
+  obtain ⟨⟨_, hfo⟩, hfi⟩ := hwf
+  unfold Node.seenFile Node.liveFile? at h h'
+  cases hG : n.liveFolder? F with
+  | none => rw [hG] at h; cases h
+  | some G =>
+    rw [hG] at h
+    simp only [] at h
+    cases hx : findLive f G.files with
+    | none => rw [hx] at h; cases h
+    | some x =>
+      rw [hx] at h
+      simp only [Option.map_some, Option.some.injEq] at h
+      have hGm : G ∈ n.folders := List.mem_of_find?_eq_some hG
+      have hGp := List.find?_some hG
+      have hxm : x ∈ G.files := List.mem_of_find?_eq_some hx
+      have hxp := List.find?_some hx
+      simp only [Bool.and_eq_true, decide_eq_true_eq] at hGp hxp
+      refine ⟨G, x, rfl, hx, ?_⟩
+      cases hG2 : (n.apply b).liveFolder? F with
+      | none => rw [hG2] at h'; cases h'
+      | some G2 =>
+        rw [hG2] at h'
+        simp only [] at h'
+        cases hx2 : findLive f G2.files with
+        | none => rw [hx2] at h'; cases h'
+        | some x2 =>
+          rw [hx2] at h'
+          simp only [Option.map_some, Option.some.injEq] at h'
+          have hG2m : G2 ∈ (n.apply b).folders := List.mem_of_find?_eq_some hG2
+          have hG2p := List.find?_some hG2
+          have hx2m : x2 ∈ G2.files := List.mem_of_find?_eq_some hx2
+          have hx2p := List.find?_some hx2
+          simp only [Bool.and_eq_true, decide_eq_true_eq] at hG2p hx2p
+          rw [apply_folders, List.mem_map] at hG2m
+          obtain ⟨G0, hG0m, rfl⟩ := hG2m
+          have hG0 : G0 = G := nodup_map_unique (·.name) n.folders hfo hG0m hGm
+            (by rw [← folderEff_name n b G0, hG2p.1, hGp.1])
+          subst hG0
+          rw [folderEff_files, List.mem_map] at hx2m
+          obtain ⟨x0, hx0m, rfl⟩ := hx2m
+          have hx0 : x0 = x := nodup_map_unique (·.name) G0.files (hfi G0 hGm) hx0m hxm
+            (by rw [← fileEff_name n b G0 x0, hx2p.1, hxp.1])
+          subst hx0
+          have hv := fileEff_visible n b G0 x0
+          cases hc : fileScanCompletes n b G0 x0
+          · rw [hc] at hv
+            simp only [Bool.false_eq_true, if_false] at hv
+            exact absurd (by rw [← h', hv, h]) hne
+          · rw [hc] at hv
+            simp only [if_true] at hv
+            exact ⟨rfl, by rw [← h', hv]⟩
 
 /-! ## 4. what each request answers -/
 
@@ -605,5 +1089,52 @@ example :
       [("d", [("a", .corrupt, .corrupt, true), ("b", .good, .none, true), ("a", .good, .none, false)]),
        ("dl", [("a", .good, .none, false)])] := by
   decide
+
+/-- a database server: the service is FIXING with 1 left, its file is CORRUPT and was scanned (shows CORRUPT); node scan due -/
+def exDb : DNode :=
+  { n := { exNode with
+      scanCd := 1,
+      sws := [{ name := "database-service", isApp := false, op := .running, actual := .fixing, visible := .good, fixDur := 1,
+                fixCd := some 1, auxDur := 5, auxCd := none }],
+      folders := [{ name := "database", deleted := false, actual := .good, visible := .none, scanDur := 3, scanCd := 0,
+                    restoreDur := 3, restoreCd := 0,
+                    files := [{ name := "database.db", actual := .corrupt, visible := .compromised, deleted := false }] }] },
+    defScan := none, defRestore := none }
+
+/-- hypotheses of `C14_view_db_restore` / `C14_view_file` are satisfiable; the restore (Python API) leaves what is seen for
+`database/database.db` alone although the file behind the name is new and GOOD -/
+example :
+    exDb.n.wf = true ∧ exDb.n.seenFile "database" "database.db" = some .compromised ∧
+    (exDb.apply (.dbRestore false (some .good))).n.seenFile "database" "database.db" = some .compromised := by decide
+example :
+    ((exDb.apply (.dbRestore false (some .good))).n.folders.map
+        (fun G => (G.name, G.files.map (fun f => (f.name, f.actual, f.visible, f.deleted))))) =
+      [("database", [("database.db", .corrupt, .compromised, true), ("database.db", .good, .compromised, false)]),
+       ("downloads", [("database.db", .good, .none, false)])] := by decide
+
+/-- inside a timestep (`tickDb`): the node scan first updates the old file (CORRUPT), the fix completes, the restore replaces the
+file and carries CORRUPT over; the service shows FIXING (scanned before its fix completed) and is GOOD; with nothing delivered the
+step is a plain `tick` -/
+example :
+    exDb.n.powerPhase.scanPhase.dbFixCompletes = true ∧
+    ((exDb.apply (.tickDb false (some .good))).n.sws.map (fun x => (x.actual, x.visible))) = [(.good, .fixing)] ∧
+    (exDb.apply (.tickDb false (some .good))).n.seenFile "database" "database.db" = some .corrupt := by decide
+example :
+    ((exDb.apply (.tickDb false (some .good))).n.folders.map
+        (fun G => (G.name, G.files.map (fun f => (f.name, f.actual, f.visible, f.deleted))))) =
+      [("database", [("database.db", .corrupt, .corrupt, true), ("database.db", .good, .corrupt, false)]),
+       ("downloads", [("database.db", .good, .none, false)])] := by decide
+example : (exDb.apply (.tickDb false none)).n = exDb.n.tick := by decide
+
+/-- the database folder was deleted: the restore creates a NEW live folder of that name; the copy shows what the deleted file
+showed -/
+example :
+    ((exDb.run [.base (.fsDeleteFolder "database"), .dbRestore false (some .good)]).n.folders.map
+        (fun G => (G.name, G.files.map (fun f => (f.name, f.actual, f.visible, f.deleted))))) =
+      [("database", [("database.db", .corrupt, .compromised, true)]),
+       ("downloads", [("database.db", .good, .none, false)]),
+       ("database", [("database.db", .good, .compromised, false)])] ∧
+    ((exDb.run [.base (.fsDeleteFolder "database"), .dbRestore false (some .good)]).n.folders.map (·.deleted)) =
+      [true, false, false] := by decide
 
 end Primaite.Health
